@@ -82,10 +82,16 @@ def create_wait_strategy(
             return WaitDecision.no_wait()
 
         # Calculate delay with exponential backoff
-        base_delay: float = min(
-            config.initial_delay_seconds * (config.backoff_rate ** (attempts_made - 1)),
-            config.max_delay_seconds,
-        )
+        try:
+            base_delay: float = min(
+                config.initial_delay_seconds
+                * (config.backoff_rate ** (attempts_made - 1)),
+                config.max_delay_seconds,
+            )
+        except OverflowError:
+            # backoff_rate ** (attempts_made - 1) no longer fits a float (e.g. 2.0 ** 1024): the
+            # exponential has long passed max_delay
+            base_delay = config.max_delay_seconds
 
         # Apply jitter to get final delay
         delay_with_jitter: float = config.jitter_strategy.apply_jitter(base_delay)
